@@ -6,6 +6,8 @@ from hypothesis import strategies as st
 from ..oracles import mgh
 
 FORMATS = ["nested_list", "dense", "csr_matrix", "csc_matrix", "coo_matrix", "lil_matrix", "csr_array",
+           # block / diagonal / dictionary storage: BSR and DIA store zeros inside their blocks / diagonals without the caller writing any
+           "bsr_matrix", "dia_matrix", "dok_matrix",
            # dense arrays in other memory layouts / element types (a transposed or MATLAB-loaded matrix is Fortran-ordered)
            "dense_fortran", "dense_strided", "dense_bool", "dense_float", "dense_readonly"]
 
